@@ -1675,6 +1675,9 @@ def main(tier=None, replay=None):
         "outside C02)",
         "B2 observes the driver SOURCE (.py_func); outputs are compared with the compiled driver on the same inputs "
         "(bit-identical for DOP853; within 1e-12 for RK45, whose np.linalg.norm differs in the last bit between numpy and numba)",
-        "NOT decided: error <= K * tol and its proportionality to tol, measured O(h^p) rates, accuracy of DOP853's dense "
-        "output (D matrix) and error weights (E3, E5)"]
+        "error <= K * tol and its shrinking with tol are checked as a [T] contract on closed-form problems (c02acc.py: forced "
+        "time-dependent oscillator, two-frequency polynomial Hamiltonian; K = 300, observed <= 10), not as a general statement; "
+        "measured O(h^p) rates and DOP853's error weights (E3, E5) are not decided"]
+    import c02acc
+    c02acc.run(ck)
     return ck.finish()
